@@ -7,6 +7,14 @@ ids = [p["id"] for p in props]
 
 # id -> (technique, level text, level note, design ref)
 claimed = {
+ "C16": ("explicit-state exploration of new-format continuations started from legacy-format databases written by the real legacy library (iavl v0.20.0) for an enumerated set of legacy histories incl. every subset of legacy-side deletions",
+         "For every enumerated legacy history (1-3 versions, <= 2 writes, every subset of legacy-side DeleteVersion of non-latest versions, legacy fast index on and off; 2418 fixtures in quick) the database written by iavl v0.20.0 opens with every legacy version available with the contents and root hashes the legacy library reported (and the independent reference agrees with them); then every continuation of <= 3 (thorough: 5) steps over {Set, Remove, SaveVersion incl. no-write commits on a legacy root, DeleteVersionsTo below/at/above the boundary, LoadVersionForOverwriting to a legacy version, reopen} keeps every version that must remain readable with its contents and canonical hash, live and after restart.",
+         "Trusted: the legacy library itself as the writer of fixtures; check/ref. Unavailability of pruned legacy versions is not asserted.",
+         "DESIGN.md §4 C16"),
+ "C18": ("breadth-first exploration of all programs over {Set, Delete, written batches, reuse of a written batch} on every bundled backend, model-content de-duplication, sorted-map model as oracle",
+         "All programs of depth <= 3 (thorough: 4; GoLevelDB one less) over 12 keys from {00,61,ff}^{1,2} are executed on fresh instances of MemDB, GoLevelDB and PrefixDB over both with prefixes p, p\\xff, \\xff, \\xff\\xff (parents pre-populated with adjacent foreign keys); after every step all point reads, forward and reverse iterators over all pairs of bounds (nil, empty, equal, inverted, outside), rejection of empty keys / nil values, batch order and non-reusability, and the complete parent contents of prefix views are compared with a sorted-map model.",
+         "Bounded: depth 3/4, batches <= 3 operations.",
+         "DESIGN.md §4 C18"),
  "C17": ("single-fault enumeration on top of explicit-state exploration: for every explored state and every public operation with an error result, the storage calls of the operation are counted and the operation is re-executed once per call index with exactly that call failing (thorough: also every pair for small read operations)",
          "For every state of a bounded exploration (cache 0, fast index on/off, small flush threshold) and every operation in {Get, Has, GetWithIndex, GetByIndex, Iterate, Iterator(+Error/Close), GetProof, GetVersioned, GetVersionedProof, GetImmutable+reads, ImmutableTree.Iterator, Export/Next, TraverseStateChanges, SaveVersion, DeleteVersionsTo, LoadVersion, LoadVersionForOverwriting, Load / first open with the index}: for every storage-call index, the operation reports an error through one of its error channels or returns exactly the fault-free result; a write operation under a fault never reports success unless the database reopens to the post-state, and otherwise reopens to the pre- or post-state.",
          "One failing call per execution (pairs in thorough) instead of random multi-fault sequences. Bounded: depth 4 (quick) / 6 (thorough), 3 keys, <= 3 versions.",
